@@ -21,10 +21,11 @@ Proof. exact classify_spec. Qed.
 
 (* an existing entry is replaced unless no-clobber is set, in which case the
    worker fails without touching it *)
-Theorem C14_replace_unless_noclobber : forall nc ex umask src,
-  (ex = true -> nc = true -> special_worker nc ex umask src = None) /\
-  (ex = true -> nc = false -> special_worker nc ex umask src = Some [SpUnlink; SpMknod (copy_node umask src)]) /\
-  (ex = false -> special_worker nc ex umask src = Some [SpMknod (copy_node umask src)]).
+Theorem C14_replace_unless_noclobber : forall nc ex same umask src,
+  (ex = true -> nc = true -> special_worker nc ex same umask src = None) /\
+  (ex = true -> nc = false -> same = true -> special_worker nc ex same umask src = None) /\
+  (ex = true -> nc = false -> same = false -> special_worker nc ex same umask src = Some [SpUnlink; SpMknod (copy_node umask src)]) /\
+  (ex = false -> special_worker nc ex same umask src = Some [SpMknod (copy_node umask src)]).
 Proof. exact special_worker_spec. Qed.
 
 Example C14_nonvacuous : copy_node 18 (mkNode 5 420 (300 * 1048576 + 70000)) = mkNode 5 420 (300 * 1048576 + 70000).
@@ -35,9 +36,9 @@ Proof. vm_compute. reflexivity. Qed.
 Theorem C14_src_device_number_is_rdev : x_copy_node_uses_rdev = 1%N.
 Proof. exact x_copy_node_uses_rdev_ok. Qed.
 
-Theorem C14_src_special_arms : forall nc ex umask src,
-  special_code (special_worker nc ex umask src) = x_parfile_special nc ex /\
-  special_code (special_worker nc ex umask src) = x_parblock_special nc ex.
+Theorem C14_src_special_arms : forall nc ex same umask src,
+  special_code (special_worker nc ex same umask src) = x_parfile_special nc ex same /\
+  special_code (special_worker nc ex same umask src) = x_parblock_special nc ex same.
 Proof. exact x_special_ok. Qed.
 
 Print Assumptions C14_node_identical.
@@ -65,3 +66,10 @@ Print Assumptions C14_src_pin_common_is_same_file.
 Print Assumptions C14_src_pin_parfile_copy_worker.
 Print Assumptions C14_src_pin_parblock_dispatch_worker.
 Print Assumptions C14_src_pin_main_main.
+
+(* a special file is never replaced by itself: when the existing target is the source node (an alias through a
+   symlinked directory) the worker performs no action at all — repair 53f6ade *)
+From XcpProofs Require Import MetaProofs.
+Theorem C14_never_unlinks_its_source : forall nc umask src, special_worker nc true true umask src = None.
+Proof. exact special_worker_never_unlinks_source. Qed.
+Print Assumptions C14_never_unlinks_its_source.
